@@ -15,6 +15,7 @@ import (
 	"github.com/bluenviron/gortsplib/v5/internal/asyncprocessor"
 	"github.com/bluenviron/gortsplib/v5/internal/base64streamreader"
 	"github.com/bluenviron/gortsplib/v5/pkg/base"
+	"github.com/bluenviron/gortsplib/v5/pkg/headers"
 )
 
 // This file is dropped into a scratch copy of the repository by
@@ -97,3 +98,18 @@ func (c *Client) VerifSetPeriods(senderReport, receiverReport, checkTimeout time
 
 // VerifSecretID returns the session id (C19: the "stolen" id).
 func (ss *ServerSession) VerifSecretID() string { return ss.secretID }
+
+// VerifKeyMgmtHeader builds a valid KeyMgmt header value (MIKEY message for a
+// fresh SRTP context with the given SSRCs), as a secure client would send it in
+// SETUP (C17: a well-formed secure SETUP over plain RTSP must still be refused).
+func VerifKeyMgmtHeader(url string, key []byte, ssrcs []uint32) (base.HeaderValue, error) {
+	ctx := &wrappedSRTPContext{key: key, ssrcs: ssrcs}
+	if err := ctx.initialize(); err != nil {
+		return nil, err
+	}
+	msg, err := contextToMikey(ctx)
+	if err != nil {
+		return nil, err
+	}
+	return headers.KeyMgmt{URL: url, MikeyMessage: msg}.Marshal()
+}
